@@ -49,7 +49,7 @@ def judge(run, cases, rows):
                         theorem="correspondence Arb.Model ~ internal/k8s/configuration.go", found_input=False)
 
 
-CID, DX, DS, DC, DF, CNEV = range(6)
+CID, DX, DS, DC, DF, CNEV, DD, DK, DL = range(9)
 
 
 def judge_ctl(run, cases, rows):
@@ -68,6 +68,19 @@ def judge_ctl(run, cases, rows):
                         "C16: at step %d of case %d (%s %s/%s) the real LoadBalancerController.sync recorded an Event or a status write on an object whose class designates another controller: events %s writes %s"
                         % (r[DF], c["id"], ev["spec"]["kind"], ev["spec"]["ns"], ev["spec"]["name"], json.dumps(st["events"])[:400], json.dumps(st["writes"])[:200]),
                         theorem="Arb.Cases.ctl_run (foreign_in_cluster)")
+        if r[DD] != 0 and r[DK] == 1:
+            ev = c["histories"][0]["events"][r[DD] - 1]
+            run.failing({"kind": "class-change-not-delivered", "event_kind": ev["spec"]["kind"]}, [c],
+                        "C16: at step %d of case %d the class of %s %s/%s changes (annotation %r, field %r) but the real informer update handler drops the event, so the controller "
+                        "never learns that the resource is now %s" % (r[DD], c["id"], ev["spec"]["kind"], ev["spec"]["ns"], ev["spec"]["name"], ev["spec"].get("class_ann"),
+                                                                     ev["spec"].get("class_field"), "its own" if ev["m"].get("cls") else "foreign"),
+                        theorem="Arb.Cases.delivery_code")
+        if r[DL] != 0:
+            ld = c.get("leader") or {}
+            run.failing({"kind": "not-silent", "how": "status-write-on-foreign-object-at-leader-start"}, [c],
+                        "C16: acquiring leadership after the history of case %d (real OnStartedLeading), the controller wrote the status of %d object(s) whose class designates "
+                        "another controller; writes: %s" % (c["id"], r[DL], json.dumps(ld.get("writes"))[:500]),
+                        theorem="Arb.Cases.leader_foreign")
 
 
 def check(run):
@@ -89,7 +102,10 @@ def check(run):
                        "non-trivial = the history contains at least one foreign-class event")
     run.cov["trusted_base"] = arb.TRUSTED
     run.cov["rule"] += ("; controller level: the same histories are fed through the real LoadBalancerController.sync (production constructor, fake clientsets, harness-filled informer stores) and "
-                        "every recorded Event and status write is checked not to name an object that is of a foreign class at that moment")
+                        "every recorded Event and status write is checked not to name an object that is of a foreign class at that moment; every event is also offered to the real informer "
+                        "handler of its kind (add/update/delete) and an update may be dropped only if it is identical to the last event about the object; at the end of the history the "
+                        "real OnStartedLeading callback runs on the cluster (every object has an Event in the API, three Policies of own/foreign/named class exist) and its status "
+                        "writes must not name a foreign-class object")
     run.assumptions += [
                         "Policies are not arbitrated by Configuration; their class filter (getPolicies) is covered by C08"]
 
